@@ -12,11 +12,11 @@ import tgen
 
 PROP = "C15"
 LEVEL = "proof"
-GEN_UNITS = []
-COQ_TARGETS = ["Props/C15.vo", "Model/C15Inst.vo", "Model/C15K.vo", "Model/C08Inst.vo", "Model/Harness.vo"]
-THEOREM_FILES = ["Props/C15.v"]
+GEN_UNITS = ["GenUtils"]      # wave 4: Props/C15w4.v states NEW symmetrize / issymmetric over the generated tt_ind2sub / tt_sub2ind
+COQ_TARGETS = ["Props/C15.vo", "Props/C15w4.vo", "Model/C15Inst.vo", "Model/C15K.vo", "Model/C08Inst.vo", "Model/Harness.vo"]
+THEOREM_FILES = ["Props/C15.v", "Props/C15w4.v"]
 COQ_IMPORTS = ("From Coq Require Import List ZArith QArith Qcanon Bool.\n"
-               "From PV Require Import Base.Index Np.Array Model.Repr Model.Harness Model.C15Sym Model.C15Impl Model.C15K Model.C15Inst Model.C08Inst.\n")
+               "From PV Require Import Base.Index Np.Array Model.Repr Model.Harness Model.C15Sym Model.C15Impl Model.C15K Model.C15KSym Model.C15Inst Model.C08Inst.\n")
 RULE = ("shapes (2,3,3), (3,2,3,2), (2,3,3,2), (3,2,2,3), (2,2,2,2), (3,3,3), (2,2), (3,3), (2,2,3) ...; EVERY choice of one group "
         "(>= 2 modes of equal size) or two disjoint groups of equal length (mode sizes may differ BETWEEN groups), proper subsets "
         "included, group members also listed out of order; non-symmetric integer data, exactly symmetric data, almost-symmetric "
@@ -29,14 +29,23 @@ RULE = ("shapes (2,3,3), (3,2,3,2), (2,3,3,2), (3,2,2,3), (2,2,2,2), (3,3,3), (2
         "2-D array, int32, non-contiguous view; all values scaled by 2^-30 ... 2^40; chains symmetrize -> permute -> issymmetric "
         "(mapped and other groups) -> symmetrize; Kruskal tensors of orders 2-5 with identical factors, with factors differing "
         "by column signs / scalings (several negative columns and weights), with arbitrary factors, C-ordered factors, "
-        "normalize() before, symmetrize twice; non-trivial = data not symmetric in the groups or the group is a proper subset")
+        "normalize() before, symmetrize twice; wave 4: requests symmetrize must REFUSE (a group with unequal mode sizes in first / later "
+        "position, a mode shared by two groups detected at the first / a later group; both versions) — AssertionError exactly where the "
+        "transliteration over the generated helpers says Err; dense tensors GROWN by pyttb's own out-of-bounds assignment (element by "
+        "element from an empty tensor, a corner entry / a block past the last mode: pyttb then stores C-contiguous data); integer data "
+        "held as int64 / int32 / int16 / int8 / float32 arrays; "
+        "ktensor.issymmetric on stored factors that are identical / differ in one entry / one column sign / shape, with and without "
+        "the difference matrix; the transliteration is executed on every basic-stream input of the NEW "
+        "versions and must give pyttb's tensor / boolean; non-trivial = data not symmetric in the groups or the group is a proper subset")
 CORRESPONDENCE_ONLY = ["ktensor.symmetrize on factors that are NOT identical but have proportional columns (stored with scrambled column signs / "
                        "scalings): that pyttb's normalize('all') turns them into factors agreeing up to column signs — the hypothesis of theorems "
                        "C15_ksym_keeps / C15_ksym_keeps_rational — is evaluated on pyttb's own normalize('all') result per case (for IDENTICAL "
                        "factors it is a theorem: C15_ksym_identical_input_keeps composes the body with C08's normalize model); the tie of "
                        "pyttb's normalize to its model k_normalize is C08's correspondence, the tie of the body is the per-case comparison here",
-                       "the tabulate/den round trip between groups in the executable instances (q_sym_new_d, q_sym_old_d) is "
-                       "Np.Array.den_tabulate, not restated"]
+                       "tensor.permute inside the OLD versions is modelled by its effect on subscripts (permuted X p i = X (put p i i); C07 "
+                       "owns permute), accumarray / np.maximum / np.abs / np.max by their mathematical meaning",
+                       "numpy / numpy_groupies primitives used by the code-level transliteration Model/C15Lin.v (np.sort on a row, fancy "
+                       "indexing, aggregate) are modelled by hand, tied by executing the transliteration on the generated inputs"]
 ASSUMPTIONS = ["the average is taken in exact rational arithmetic; pyttb's float result must lie within 1e-9 relative",
                "old-version symmetrize's max-fix is modelled with a max that satisfies max a a = a (theorem C15_sym_old holds for any such max)",
                "C15_ksym_keeps assumes of the oracle 'x < 0' only: a sum of squares is not negative, and if minus a sum of squares is not "
@@ -49,8 +58,13 @@ EXPLANATION = ("Theorems (all shapes, groups, values of a commutative ring; char
                "(explicit average over the table of all combinations of within-group mode rearrangements, then the max-fix loop) = spec "
                "at every N-way subscript, hence the two versions agree; NEW and OLD issymmetric = the spec test; Kruskal tensors with "
                "identical factors are symmetric; the body of ktensor.symmetrize always returns identical factors and keeps the value of "
-               "a tensor whose factors agree up to column signs. All transliterations are additionally executed and compared with the "
-               "spec / with pyttb on every generated input.")
+               "a tensor whose factors agree up to column signs. Wave 4 (Props/C15w4.v): the algorithms on the stored CONTAINER (one "
+               "materialised array per group / max-fix round) return tabulate(spec), both versions the same container; the NEW bodies "
+               "transliterated line by line over the translator-GENERATED tt_ind2sub / tt_sub2ind (+ accumarray, size and overlap "
+               "checks -> Err) equal the container model with no hypothesis on the values, and on this transliteration: returns the "
+               "average, passes the test, idempotent, keeps a symmetric tensor (same container), test exact, refusals; "
+               "ktensor.issymmetric = all stored factors identical, sound, and always passed by ktensor.symmetrize's result. "
+               "All transliterations are additionally executed and compared with the spec / with pyttb on every generated input.")
 
 
 # ----------------------------------------------------------------------------------------------------------------
@@ -168,7 +182,10 @@ def subgroup_int(shape, data, g, kind, rng):
     return out
 
 
-LAYOUTS = ["C", "Cnocopy", "assignC", "strided", "assignview"]
+LAYOUTS = ["C", "Cnocopy", "assignC", "strided", "assignview", "grow_elem", "grow_elem_rev", "grow_corner", "grow_block"]
+# wave 4 (lead's input class): "grow_*" = the tensor is GROWN by pyttb's own out-of-bounds assignment (filled element by element
+# from an empty ttb.tensor(), one corner entry past the last mode, a block past the last mode): pyttb then holds C-contiguous data
+GROWN = ["grow_elem", "grow_elem_rev", "grow_corner", "grow_block"]
 
 
 def variant(rng, shape, big):
@@ -183,6 +200,9 @@ def variant(rng, shape, big):
         while p == sorted(p):
             rng.shuffle(p)
         v["via_perm"] = p
+    elif r < 0.7:
+        # wave 4: element types other than float64 (used only where the data are integers: no bump, no scale)
+        v["dtype"] = rng.choice(["int64", "int32", "int16", "int8", "float32"])
     if rng.random() < 0.3:
         others = group_choices(shape, ones=True)
         v["prior"] = [rng.choice(others) for _ in range(rng.choice([1, 2]))]
@@ -260,7 +280,75 @@ def gen_cases(rng, tier):
                     w = [rng.choice([-2, -1, 1, 2, 3]) for _ in range(R)]
                 cases.append(Case("ksymmetrize", {"w": w, "f": f, "kind": kind}, True))
     cases += gen_w3(rng, big)
+    cases += gen_w4(rng, big)
     rng.shuffle(cases)          # spreads the expensive (rational) cases evenly over the coqc shards
+    return cases
+
+
+def gen_w4(rng, big):
+    """wave 4: requests that symmetrize must refuse (AssertionError), both versions: a group whose modes have unequal sizes (as
+    first group, and as a later group after an admissible one has been processed) and a mode shared by two groups (found at the
+    first group, and found only at the second group of three)"""
+    cases = []
+    bad = [((2, 3, 3), [[0, 1]], "size"), ((2, 3, 2, 3), [[0, 1], [2, 3]], "size"), ((2, 2, 3), [[0, 1, 2]], "size"),
+           ((3, 3, 2, 3), [[0, 1], [2, 3]], "size-later"), ((2, 2, 3, 2), [[1, 0], [3, 2]], "size-later"),
+           ((2, 2, 2), [[0, 1], [1, 2]], "overlap"), ((3, 3, 3), [[0, 1], [0, 2]], "overlap"),
+           ((2, 2, 2, 2), [[0, 1], [2, 3], [3, 0]], "overlap"), ((2, 2, 2, 2), [[0, 1], [2, 3], [3, 2]], "overlap-later"),
+           ((3, 2, 2, 3), [[0, 3], [1, 2], [2, 1]], "overlap-later")]
+    for shape, groups, why in bad:
+        n = math.prod(shape)
+        for rep in range(2 if big else 1):
+            data = [rng.randint(-3, 4) for _ in range(n)]
+            for version in (None, 1):
+                cases.append(Case("sym_reject", {"shape": list(shape), "data": data, "grps": groups, "version": version, "why": why}, True))
+    # dense tensors GROWN by assignment past the bounds (pyttb then stores C-contiguous data): proper subgroups, two groups of
+    # different sizes, all modes; both versions of both operations
+    for shape, groups in (((2, 3, 3), [[1, 2]]), ((2, 2, 3, 3), [[0, 1], [2, 3]]), ((3, 3), [[0, 1]]), ((3, 2, 3), [[2, 0]]),
+                          ((2, 2, 2), [[0, 1, 2]]), ((2, 3, 3, 2), [[3, 0], [1, 2]])):
+        n = math.prod(shape)
+        for lay in (GROWN if big else rng.sample(GROWN, 3)):
+            base = {"shape": list(shape), "grps": groups, "w3": 1, "layout": lay}
+            data = [rng.randint(-4, 5) for _ in range(n)]
+            sdata = sym_int(shape, [rng.randint(-2, 3) for _ in range(n)], groups)
+            adata = list(sdata)
+            adata[rng.randrange(n)] += 1
+            for version in (None, 1):
+                cases.append(Case("symmetrize", dict(base, data=data, version=version), True))
+            cases.append(Case("symmetrize", dict(base, data=sdata, version=rng.choice([None, 1])), True))
+            for d in (data, sdata, adata):
+                for version, details in ((None, False), (1, False), (1, True)):
+                    cases.append(Case("issymmetric", dict(base, data=d, version=version, details=details), True))
+    # ktensor.issymmetric on Kruskal tensors that are NOT symmetric as stored: identical factors (True), one entry changed, one
+    # column negated (the dense value may still be symmetric: the test compares the stored factors), factors of different
+    # shapes, a single factor (no pair: True), orders 1-4; with and without the difference matrix; C-ordered / assigned factors
+    for N in (1, 2, 3, 4):
+        for m, R in ((2, 1), (2, 2), (3, 2)) + (((3, 3), (4, 2)) if big else ()):
+            for kind in ("same", "entry", "colsign", "shape", "two-differ"):
+                if N == 1 and kind != "same":
+                    continue
+                A = [[rng.randint(-3, 3) for _ in range(R)] for _ in range(m)]
+                f = [[list(r) for r in A] for _ in range(N)]
+                if kind == "entry":
+                    k = rng.randrange(N)
+                    f[k][rng.randrange(m)][rng.randrange(R)] += rng.choice([1, -1])
+                elif kind == "colsign":
+                    k, j = rng.randrange(N), rng.randrange(R)
+                    if all(row[j] == 0 for row in A):
+                        f[k][0][j] = 1
+                    else:
+                        f[k] = [[-x if c_ == j else x for c_, x in enumerate(row)] for row in f[k]]
+                elif kind == "shape":
+                    k = rng.randrange(N)
+                    f[k] = f[k] + [[rng.randint(-2, 2) for _ in range(R)]]
+                elif kind == "two-differ":
+                    if N < 3:
+                        continue
+                    for k in rng.sample(range(N), 2):
+                        f[k][rng.randrange(m)][rng.randrange(R)] += 1
+                w = [rng.choice([-2, -1, 1, 2, 3]) for _ in range(R)]
+                for diffs in (False, True):
+                    cases.append(Case("kissym", {"w": w, "f": f, "kind": kind, "diffs": diffs,
+                                                 "klayout": rng.choice(["F", "C", "assignC"])}, kind != "same"))
     return cases
 
 
@@ -385,6 +473,35 @@ def mk_grps(np, groups, form=None):
     return arr
 
 
+def grown_tensor(ttb, np, shape, arr, lay):
+    """the tensor with the entries of arr, produced by growth through assignment past the current bounds"""
+    subs = tgen.all_subs(shape)
+    last = shape[-1]
+    if lay in ("grow_corner", "grow_block") and last < 2:
+        lay = "grow_elem"
+    if lay == "grow_elem":                  # grows step by step
+        T = ttb.tensor()
+        for s_ in subs:
+            T[tuple(s_)] = float(arr[tuple(s_)])
+    elif lay == "grow_elem_rev":            # the first assignment creates the full extent
+        T = ttb.tensor()
+        for s_ in reversed(subs):
+            T[tuple(s_)] = float(arr[tuple(s_)])
+    else:
+        T = ttb.tensor(np.asfortranarray(arr[..., : last - 1]), copy=True)
+        if lay == "grow_corner":
+            T[tuple(d - 1 for d in shape)] = float(arr[tuple(d - 1 for d in shape)])
+            for s_ in subs:
+                if s_[-1] == last - 1:
+                    T[tuple(s_)] = float(arr[tuple(s_)])
+        else:
+            key = tuple(slice(0, d) for d in shape[:-1]) + (slice(last - 1, last),)
+            T[key] = np.asfortranarray(arr[..., last - 1:])
+    if tuple(int(d) for d in T.shape) != tuple(shape) or not np.array_equal(np.asarray(T.data), arr):
+        raise RuntimeError("harness: the grown tensor does not hold the intended entries (growth by assignment misbehaves)")
+    return T
+
+
 def build_tensor(ttb, np, a):
     """the pyttb tensor holding full_data * 2^scale, built the way the case asks for"""
     shape = a["shape"]
@@ -394,6 +511,8 @@ def build_tensor(ttb, np, a):
         return tgen.mk_tensor(ttb, np, s0, d0).permute(np.array(a["via_perm"]))
     arr = tgen.np_dense(np, shape, vals)
     lay = a.get("layout", "F")
+    if lay in GROWN:
+        return grown_tensor(ttb, np, shape, arr, lay)
     pad = np.pad(arr, [(1, 2)] * len(shape), constant_values=99.0)
     view = pad[tuple(slice(1, 1 + d) for d in shape)]
     if lay == "C":
@@ -402,6 +521,9 @@ def build_tensor(ttb, np, a):
         return ttb.tensor(np.ascontiguousarray(arr), copy=False)
     if lay == "strided":
         return ttb.tensor(view, copy=False)
+    if a.get("dtype") and lay == "F" and not a.get("bump") and not a.get("scale"):
+        dt = a["dtype"] if max(abs(x) for x in vals) <= 100 else "int64"       # never let the cast change a value
+        return ttb.tensor(np.asfortranarray(arr.astype(dt)), copy=True)
     T = tgen.mk_tensor(ttb, np, shape, vals)
     if lay == "assignC":
         T.data = np.ascontiguousarray(arr)
@@ -439,6 +561,25 @@ def run_impl(c):
                 out["again"] = tgen.obs_ktensor(np, S2)
                 out["issym2"] = bool(S2.issymmetric())
             return out
+        if c.op == "kissym":
+            R = len(a["w"])
+            fs = [np.asfortranarray(np.array(A, dtype=float).reshape((len(A), R))) for A in a["f"]]
+            K = ttb.ktensor(fs, np.array(a["w"], dtype=float), copy=True)
+            if a["klayout"] == "C":
+                K = ttb.ktensor([np.ascontiguousarray(A) for A in fs], np.array(a["w"], dtype=float), copy=False)
+            elif a["klayout"] == "assignC":
+                for n_ in range(len(fs)):
+                    K.factor_matrices[n_] = np.ascontiguousarray(fs[n_])
+            before = [np.array(A, copy=True) for A in K.factor_matrices]
+            r = K.issymmetric(return_diffs=True) if a["diffs"] else K.issymmetric()
+            intact = all(x.shape == y.shape and np.array_equal(x, y) for x, y in zip(before, K.factor_matrices))
+            if a["diffs"]:
+                d = np.asarray(r[1])
+                N = len(fs)
+                return {"ok": bool(r[0]), "dshape": [int(x) for x in d.shape], "intact": intact,
+                        "upper_zero": [[bool(d[i, j] == 0) for j in range(i + 1, N)] for i in range(N)],
+                        "rest_zero": bool(all(d[i, j] == 0 for i in range(N) for j in range(0, i + 1)))}
+            return {"ok": bool(r), "intact": intact}
         if c.op == "chain":
             T = tgen.mk_tensor(ttb, np, a["shape"], [float(x) for x in a["data"]])
             S = T.symmetrize(mk_grps(np, a["grps"]), a["version"])
@@ -455,6 +596,12 @@ def run_impl(c):
             U.symmetrize(mk_grps(np, pg), 1)
         T = build_tensor(ttb, np, a)
         grps = mk_grps(np, a["grps"], a.get("grpform"))
+        if c.op == "sym_reject":
+            try:
+                S = T.symmetrize(grps, a["version"])
+            except Exception as ex:
+                return {"raised": type(ex).__name__, "msg": str(ex)[:200]}
+            return {"answered": tgen.obs_dense(np, S)}
         if c.op == "symmetrize":
             S = T.symmetrize(grps, a["version"]) if grps is not None else T.symmetrize(version=a["version"])
             S2 = S.copy().symmetrize(grps, a["version"]) if grps is not None else S.copy().symmetrize(version=a["version"])
@@ -474,8 +621,11 @@ def run_impl(c):
             r = T.issymmetric(grps, a["version"], a["details"])
             if a["details"] and isinstance(r, tuple):
                 return {"ok": bool(r[0]), "ndiffs": int(np.asarray(r[1]).size), "perms_shape": [int(x) for x in np.asarray(r[2]).shape],
+                        "diffs": [tgen.exact(x) for x in np.asarray(r[1]).ravel()],
+                        "rows": [[int(x) for x in row] for row in np.asarray(r[2]).reshape((-1, T.ndims))],
+                        "rows_integral": bool(np.all(np.asarray(r[2]) == np.round(np.asarray(r[2])))),
                         "maxdiff_zero": bool((np.asarray(r[1]) == 0).all())}
-            return {"ok": bool(r)}
+            return {"ok": bool(r), "bare": bool(a["details"])}
     except Exception as ex:
         return {"exc": type(ex).__name__, "msg": str(ex)[:200]}
     raise ValueError(c.op)
@@ -497,6 +647,18 @@ def coq_check(c, o):
     a = c.args
     if "exc" in o:
         return "false"
+    if c.op == "sym_reject":
+        # pyttb refuses (AssertionError) exactly where the transliteration over the generated helpers says Err
+        T = tgen.gqdense(a["shape"], a["data"])
+        return f"q_code_rejects {T} {gnmat(a['grps'])} && {gb(o.get('raised') == 'AssertionError')}"
+    if c.op == "kissym":
+        K = tgen.gktensor(a["w"], a["f"])
+        N = len(a["f"])
+        extra = ""
+        if a["diffs"]:
+            up = "[" + "; ".join("[" + "; ".join(gb(x) for x in row) + "]" for row in o["upper_zero"]) + "]"
+            extra = f" && bmat_eqb (z_k_diffs_zero {K}) {up} && {gb(o['dshape'] == [N, N])} && {gb(o['rest_zero'])}"
+        return f"Bool.eqb (z_k_issym {K}) {gb(o['ok'])} && {gb(o['intact'])}{extra}"
     if c.op == "ksymmetrize":
         ob = o["ok"]
         if not (finite(ob["weights"]) and all(finite(r) for A in ob["factors"] for r in A)):
@@ -554,7 +716,8 @@ def coq_check(c, o):
         # symmetrising again changes nothing; pyttb's result is EXACTLY symmetric (spec test) and passed both pyttb tests;
         # a second call on the same object returned the same tensor
         # (the two model-only comparisons are independent of how pyttb was driven: evaluated in the basic stream only)
-        models = "" if a.get("w3") else f"q_impls_agree T {G} && q_sym_result_symmetric T {G} && "
+        # wave 4: the transliteration over the GENERATED tt_ind2sub / tt_sub2ind, executed, gives pyttb's tensor
+        models = "" if a.get("w3") else f"q_impls_agree T {G} && q_sym_result_symmetric T {G} && q_code_matches T {G} O && "
         return (f"let T := {T} in let O := {O} in q_sym_matches T {G} O && {models}q_same O {O2} && "
                 f"q_issym O {G} && {gb(o['test_new'])} && {gb(o['test_old'])} && {gb(o.get('repeat_same', True))} && "
                 f"{gb(o.get('receiver_intact', True))}")
@@ -564,11 +727,22 @@ def coq_check(c, o):
             cnt = sum(math.factorial(len(g)) for g in groups_of(a))
             extra = (f" && Nat.eqb {o['ndiffs']} {cnt} && nvec_eqb {gnlist(o['perms_shape'])} {gnlist([cnt, len(a['shape'])])}"
                      f" && Bool.eqb {gb(o['maxdiff_zero'])} {gb(o['ok'])}")
+        if a["details"] and "diffs" in o and finite(o["diffs"]):
+            # wave 4: the detail outputs themselves (all_diffs exactly, scale removed; all_perms row by row in itertools order)
+            if a.get("bump"):
+                dl = "[" + "; ".join(gq(x) for x in unscale(a, o["diffs"])) + "]"
+                extra += f" && q_details_match T {G} {gb(o['ok'])} {dl} {gnmat(o['rows'])} && {gb(o['rows_integral'])}"
+            else:
+                du = unscale(a, o["diffs"])
+                extra += (f" && z_details_match T {G} {gb(o['ok'])} {gzlist([int(x) for x in du])} {gnmat(o['rows'])} && "
+                          f"{gb(o['rows_integral'] and all(x.denominator == 1 for x in du))}")
+        elif a["details"] and o.get("bare") and not a.get("bump"):
+            extra += f" && z_details_refused T {G}"        # a bare False instead of the triple: only after the size check
         if a.get("bump"):
             T = tgen.gqdense(a["shape"], full_data(a))
-            return f"let T := {T} in Bool.eqb (q_issym T {G}) {gb(o['ok'])} && q_issym_impls_agree T {G}{extra}"
+            return f"let T := {T} in Bool.eqb (q_issym T {G}) {gb(o['ok'])} && q_issym_impls_agree T {G} && q_code_issym_is T {G} {gb(o['ok'])}{extra}"
         T = tgen.gdense(a["shape"], a["data"])
-        return f"let T := {T} in Bool.eqb (z_issym T {G}) {gb(o['ok'])} && z_issym_impls_agree T {G}{extra}"
+        return f"let T := {T} in Bool.eqb (z_issym T {G}) {gb(o['ok'])} && z_issym_impls_agree T {G} && z_code_issym_is T {G} {gb(o['ok'])}{extra}"
     raise ValueError(c.op)
 
 
@@ -597,6 +771,13 @@ def sym_avg(shape, data, groups):
 
 def oracle(c, o):
     a = c.args
+    if c.op == "kissym":
+        same = all(A == a["f"][0] for A in a["f"])
+        if "exc" in o:
+            return f"ktensor.issymmetric raised {o['exc']}"
+        return None if o["ok"] == same else f"ktensor.issymmetric answered {o['ok']} on factors that are {'identical' if same else 'not identical'}"
+    if c.op == "sym_reject":
+        return None         # the property text does not speak about refusals: a mismatch here is a model / code disagreement
     if "exc" in o:
         return f"admissible request raised {o['exc']}: {o.get('msg')}"
     if c.op == "ksymmetrize":
